@@ -134,8 +134,14 @@ def genHttpPlan (seed n : Nat) : List String :=
   (List.range n).map fun k =>
     G.run (do
       let (v6, ip) ← gLoopback
-      let host ← if k < hostShapes.length then pure (some (utf8 (hostShapes.getD k ""))) else gHost
-      let path ← if k % 3 == 0 then pure (utf8 Eco.PATH) else if k / 3 < pathShapes.length then pure (utf8 (pathShapes.getD (k / 3) "")) else gPath
+      -- every other case walks through the shape lists; the others are what the property speaks about (no name or a
+      -- plain one, a plain path), so that the oracles that do not go through the model see many of them
+      let plainHost ← G.oneOf [none, none, none, some "eco.example", some "localhost", some "a-b.c_d", some "play.eco.example", some "x", some "eco-1.example.org"]
+      let host ← if k % 2 == 0 && k / 2 < hostShapes.length then pure (some (utf8 (hostShapes.getD (k / 2) "")))
+        else if k % 2 == 1 then pure (plainHost.map utf8) else gHost
+      let plainPath ← G.oneOf ["/frontpage", "/frontpage", "/", "/a/b", "status", "/api/v1/info", "/a//b", "x/y/", "/front-page_1~"]
+      let path ← if k % 4 == 0 && k / 4 < pathShapes.length then pure (utf8 (pathShapes.getD (k / 4) ""))
+        else if k % 4 == 2 then gPath else pure (utf8 plainPath)
       let call ← G.oneOf ["eco", "eco", "json", "json", "raw"]
       let port80 ← G.chance 1 12
       let (doc, want) ← gDoc
